@@ -774,3 +774,129 @@ package cose
 //@   loop 1 invariant prefix [C11]: forall j Int :: 0 <= j && j < idx ==> signatures[j] != nil && len(signatures[j].Signature) > 0 && fresh(signatures[j])
 //@   loop 1 invariant dst_kept [C19]: *m == old(*m)
 //@   loop 1 invariant locals_kept: raw == entry(raw) && (forall j Int :: 0 <= j && j < len(raw.Signatures) ==> raw.Signatures[j] == entry(raw.Signatures[j]))
+
+// ===================================================================
+// sign1.go: wrappers and helpers  (C01, C08, C20)
+// ===================================================================
+
+//@ func (*UntaggedSign1Message).Sign
+//@   requires signer_nonnil: signer != nil
+//@   ensures once [C20]: epoch() == old(epoch()) || epoch() == old(epoch()) + 1
+//@   ensures err_slot [C20]: m != nil && err != nil ==> m.Signature == old(m.Signature)
+//@   ensures verbatim [C02, C20]: epoch() == old(epoch()) + 1 ==> m != nil
+//@         && err == signer_sign_err(signer, rand, Sig1(ProtBytes(m.Headers), external, m.Payload), old(epoch()))
+//@   modifies frame [C18]: m.Signature, m.Headers.Protected, mapof(asmap(m.Headers.Protected))
+
+//@ func (*UntaggedSign1Message).Verify
+//@   requires verifier_nonnil: verifier != nil
+//@   ensures once [C03, C20]: vepoch() == old(vepoch()) || vepoch() == old(vepoch()) + 1
+//@   ensures sound [C03, C20]: result == nil ==> m != nil && m.Payload != nil && len(m.Signature) > 0 && vepoch() == old(vepoch()) + 1
+//@   ensures verbatim [C02, C03, C20]: vepoch() == old(vepoch()) + 1 ==> m != nil
+//@         && result == verifier_verify(verifier, old(Sig1(ProtBytes(m.Headers), external, m.Payload)), old(bytes(m.Signature)))
+//@   modifies frame [C18]: nothing
+
+//@ func Sign1
+//@   requires signer_nonnil: signer != nil
+//@   ensures err_no_bytes [C20]: err != nil ==> result == nil
+//@   ensures ok_nonempty [C08, C20]: err == nil ==> len(result) > 0 && fresh(result) && epoch() == old(epoch()) + 1
+//@   ensures signer_err [C20]: epoch() == old(epoch()) + 1 && err == nil ==> true
+//@   ensures once [C20]: epoch() == old(epoch()) || epoch() == old(epoch()) + 1
+//@   modifies frame [C12, C18]: mapof(asmap(headers.Protected))
+
+//@ func Sign1Untagged
+//@   requires signer_nonnil: signer != nil
+//@   ensures err_no_bytes [C20]: err != nil ==> result == nil
+//@   ensures ok_nonempty [C08, C20]: err == nil ==> len(result) > 0 && fresh(result) && epoch() == old(epoch()) + 1
+//@   ensures once [C20]: epoch() == old(epoch()) || epoch() == old(epoch()) + 1
+//@   modifies frame [C18]: mapof(asmap(headers.Protected))
+
+// ===================================================================
+// countersign.go  (C10, C01, C02, C20)
+// ===================================================================
+
+//@ spec csctx(abbrev Bool, v2 Bool) string = abbrev ? (v2 ? "CounterSignature0V2" : "CounterSignature0") : (v2 ? "CounterSignatureV2" : "CounterSignature")
+// RFC 9338 Countersign_structure without / with other_fields (the latter only for a COSE_Sign1 parent: [parent signature])
+//@ spec tbsPlain(abbrev Bool, h Headers, payload []byte, signProt []byte, external []byte) Bytes =
+//@       enc(arr(cv_tstr(csctx(abbrev, false)), cv_raw(canon(ProtBytes(h))), cv_raw(canon(bytes(signProt))), cv_bstr(bytes(external)), payloadcv(payload)))
+//@ spec tbsSign1(abbrev Bool, h Headers, payload []byte, sig []byte, signProt []byte, external []byte) Bytes =
+//@       enc(arr(cv_tstr(csctx(abbrev, true)), cv_raw(canon(ProtBytes(h))), cv_raw(canon(bytes(signProt))), cv_bstr(bytes(external)), payloadcv(payload), arr(cv_raw(enc(cv_bstr(bytes(sig)))))))
+
+//@ func countersignToBeSigned
+//@   requires ptr_nonnil: (target is *Sign1Message ==> target.(*Sign1Message) != nil) && (target is *SignMessage ==> target.(*SignMessage) != nil)
+//@         && (target is *Signature ==> target.(*Signature) != nil) && (target is *Countersignature ==> target.(*Countersignature) != nil)
+//@   ensures sign1_val [C10]: target is Sign1Message && err == nil ==> len(target.(Sign1Message).Signature) > 0 && target.(Sign1Message).Payload != nil
+//@         && bytes(result) == old(tbsSign1(abbreviated, target.(Sign1Message).Headers, target.(Sign1Message).Payload, target.(Sign1Message).Signature, signProtected, external))
+//@   ensures sign1_ptr [C10]: target is *Sign1Message && err == nil ==> len(target.(*Sign1Message).Signature) > 0 && target.(*Sign1Message).Payload != nil
+//@         && bytes(result) == old(tbsSign1(abbreviated, target.(*Sign1Message).Headers, target.(*Sign1Message).Payload, target.(*Sign1Message).Signature, signProtected, external))
+//@   ensures sign_val [C10]: target is SignMessage && err == nil ==> len(target.(SignMessage).Signatures) > 0 && target.(SignMessage).Payload != nil
+//@         && bytes(result) == old(tbsPlain(abbreviated, target.(SignMessage).Headers, target.(SignMessage).Payload, signProtected, external))
+//@   ensures sign_ptr [C10]: target is *SignMessage && err == nil ==> len(target.(*SignMessage).Signatures) > 0 && target.(*SignMessage).Payload != nil
+//@         && bytes(result) == old(tbsPlain(abbreviated, target.(*SignMessage).Headers, target.(*SignMessage).Payload, signProtected, external))
+//@   ensures sig_val [C10]: target is Signature && err == nil ==> len(target.(Signature).Signature) > 0
+//@         && bytes(result) == old(tbsPlain(abbreviated, target.(Signature).Headers, target.(Signature).Signature, signProtected, external))
+//@   ensures sig_ptr [C10]: target is *Signature && err == nil ==> len(target.(*Signature).Signature) > 0
+//@         && bytes(result) == old(tbsPlain(abbreviated, target.(*Signature).Headers, target.(*Signature).Signature, signProtected, external))
+//@   ensures csig_val [C10]: target is Countersignature && err == nil ==> len(target.(Countersignature).Signature) > 0
+//@         && bytes(result) == old(tbsPlain(abbreviated, target.(Countersignature).Headers, target.(Countersignature).Signature, signProtected, external))
+//@   ensures csig_ptr [C10]: target is *Countersignature && err == nil ==> len(target.(*Countersignature).Signature) > 0
+//@         && bytes(result) == old(tbsPlain(abbreviated, target.(*Countersignature).Headers, target.(*Countersignature).Signature, signProtected, external))
+//@   ensures refuse_other [C10]: !(target is Sign1Message || target is *Sign1Message || target is SignMessage || target is *SignMessage
+//@         || target is Signature || target is *Signature || target is Countersignature || target is *Countersignature) ==> err != nil
+//@   ensures out [C10, C20]: (err == nil ==> fresh(result) && len(result) > 0) && (err != nil ==> result == nil)
+//@   modifies frame [C18]: nothing
+
+// the value that reaches the signer / verifier for parent `parent` (any of the eight supported spellings)
+//@ spec parentOK(parent any) Bool = (parent is *Sign1Message ==> parent.(*Sign1Message) != nil) && (parent is *SignMessage ==> parent.(*SignMessage) != nil)
+//@         && (parent is *Signature ==> parent.(*Signature) != nil) && (parent is *Countersignature ==> parent.(*Countersignature) != nil)
+
+//@ spec tbsFor(abbrev Bool, parent any, signProt Bytes, external []byte) Bytes =
+//@         parent is *Sign1Message ? enc(arr(cv_tstr(csctx(abbrev, true)), cv_raw(canon(ProtBytes(parent.(*Sign1Message).Headers))), cv_raw(canon(signProt)), cv_bstr(bytes(external)), payloadcv(parent.(*Sign1Message).Payload), arr(cv_raw(enc(cv_bstr(bytes(parent.(*Sign1Message).Signature)))))))
+//@       : (parent is Sign1Message ? enc(arr(cv_tstr(csctx(abbrev, true)), cv_raw(canon(ProtBytes(parent.(Sign1Message).Headers))), cv_raw(canon(signProt)), cv_bstr(bytes(external)), payloadcv(parent.(Sign1Message).Payload), arr(cv_raw(enc(cv_bstr(bytes(parent.(Sign1Message).Signature)))))))
+//@       : (parent is *SignMessage ? enc(arr(cv_tstr(csctx(abbrev, false)), cv_raw(canon(ProtBytes(parent.(*SignMessage).Headers))), cv_raw(canon(signProt)), cv_bstr(bytes(external)), payloadcv(parent.(*SignMessage).Payload)))
+//@       : (parent is SignMessage ? enc(arr(cv_tstr(csctx(abbrev, false)), cv_raw(canon(ProtBytes(parent.(SignMessage).Headers))), cv_raw(canon(signProt)), cv_bstr(bytes(external)), payloadcv(parent.(SignMessage).Payload)))
+//@       : (parent is *Signature ? enc(arr(cv_tstr(csctx(abbrev, false)), cv_raw(canon(ProtBytes(parent.(*Signature).Headers))), cv_raw(canon(signProt)), cv_bstr(bytes(external)), payloadcv(parent.(*Signature).Signature)))
+//@       : (parent is Signature ? enc(arr(cv_tstr(csctx(abbrev, false)), cv_raw(canon(ProtBytes(parent.(Signature).Headers))), cv_raw(canon(signProt)), cv_bstr(bytes(external)), payloadcv(parent.(Signature).Signature)))
+//@       : (parent is *Countersignature ? enc(arr(cv_tstr(csctx(abbrev, false)), cv_raw(canon(ProtBytes(parent.(*Countersignature).Headers))), cv_raw(canon(signProt)), cv_bstr(bytes(external)), payloadcv(parent.(*Countersignature).Signature)))
+//@       : enc(arr(cv_tstr(csctx(abbrev, false)), cv_raw(canon(ProtBytes(parent.(Countersignature).Headers))), cv_raw(canon(signProt)), cv_bstr(bytes(external)), payloadcv(parent.(Countersignature).Signature)))))))))
+//@ spec isParent(p any) Bool = p is Sign1Message || p is *Sign1Message || p is SignMessage || p is *SignMessage || p is Signature || p is *Signature || p is Countersignature || p is *Countersignature
+
+//@ func (*Countersignature).Verify
+//@   requires ok: verifier != nil && parentOK(parent)
+//@   ensures once [C03, C04, C10, C20]: vepoch() == old(vepoch()) || vepoch() == old(vepoch()) + 1
+//@   ensures sound [C03, C10, C20]: result == nil ==> s != nil && len(s.Signature) > 0 && isParent(parent) && vepoch() == old(vepoch()) + 1
+//@   ensures verbatim [C03, C10, C20]: vepoch() == old(vepoch()) + 1 ==> s != nil && isParent(parent)
+//@         && result == verifier_verify(verifier, old(tbsFor(false, parent, ProtBytes(s.Headers), external)), old(bytes(s.Signature)))
+//@   ensures gate [C04]: s != nil && vepoch() != old(vepoch()) ==> (algPresent(s.Headers.Protected) ==> algAgrees(s.Headers.Protected, verifier_alg(verifier))) && (algPresent(s.Headers.Protected) || len(external) > 0)
+//@   ensures precheck [C03, C10]: (s == nil || len(s.Signature) == 0 || !isParent(parent)) ==> result != nil && vepoch() == old(vepoch())
+//@   modifies frame [C18]: nothing
+
+//@ func (*Countersignature).Sign
+//@   requires ok: signer != nil && parentOK(parent)
+//@   ensures once [C04, C10, C20]: epoch() == old(epoch()) || epoch() == old(epoch()) + 1
+//@   ensures ok [C01, C10, C20]: err == nil ==> s != nil && isParent(parent) && epoch() == old(epoch()) + 1
+//@         && bytes(s.Signature) == signer_sign_bytes(signer, rand, withold(s.Signature, tbsFor(false, parent, ProtBytes(s.Headers), external)), old(epoch()))
+//@   ensures verbatim [C10, C20]: epoch() == old(epoch()) + 1 ==> s != nil && isParent(parent)
+//@         && err == signer_sign_err(signer, rand, withold(s.Signature, tbsFor(false, parent, ProtBytes(s.Headers), external)), old(epoch()))
+//@   ensures err_slot [C20]: s != nil && err != nil ==> s.Signature == old(s.Signature)
+//@   ensures gate [C04]: s != nil && epoch() != old(epoch()) ==> (algPresent(s.Headers.Protected) ==> algAgrees(s.Headers.Protected, signer_alg(signer))) && (algPresent(s.Headers.Protected) || len(external) > 0)
+//@   ensures precheck [C10, C20]: (s == nil || old(len(s.Signature)) > 0 || !isParent(parent)) ==> err != nil && epoch() == old(epoch())
+//@   modifies frame [C18]: s.Signature, s.Headers.Protected, mapof(asmap(s.Headers.Protected))
+
+//@ func Countersign0
+//@   requires ok: signer != nil && parentOK(parent)
+//@   ensures once [C10, C20]: epoch() == old(epoch()) || epoch() == old(epoch()) + 1
+//@   ensures fun [C10, C20]: epoch() == old(epoch()) + 1 ==> isParent(parent)
+//@         && err == signer_sign_err(signer, rand, old(tbsFor(true, parent, byte1(64), external)), old(epoch()))
+//@   ensures ok_bytes [C10]: err == nil ==> epoch() == old(epoch()) + 1 && bytes(result) == signer_sign_bytes(signer, rand, old(tbsFor(true, parent, byte1(64), external)), old(epoch()))
+//@   ensures err_no_bytes [C20]: err != nil ==> result == nil
+//@   ensures refuse [C10]: !isParent(parent) ==> err != nil && epoch() == old(epoch())
+//@   modifies frame [C18]: nothing
+
+//@ func VerifyCountersign0
+//@   requires ok: verifier != nil && parentOK(parent)
+//@   ensures once [C03, C10, C20]: vepoch() == old(vepoch()) || vepoch() == old(vepoch()) + 1
+//@   ensures sound [C03, C10, C20]: result == nil ==> isParent(parent) && vepoch() == old(vepoch()) + 1
+//@   ensures verbatim [C03, C10, C20]: vepoch() == old(vepoch()) + 1 ==> isParent(parent)
+//@         && result == verifier_verify(verifier, old(tbsFor(true, parent, byte1(64), external)), old(bytes(signature)))
+//@   ensures refuse [C10]: !isParent(parent) ==> result != nil && vepoch() == old(vepoch())
+//@   modifies frame [C18]: nothing
